@@ -13,11 +13,21 @@ localization `old` and a new-data dict `nd` (association list, `none` = Python `
   `newValue ref nd s`  `ref_mapping[s].wrap(new_data[s])` when `given`
   `chosen ref old nd s` = `newValue …` if defined, else `oldEntry old s` if `kept`
 `Ent.isReal` = Entity that is not a PlaceholderEntity.
+
+Vocabulary of the re-parse theorem `serialize_reparses_properties_partial` (CLModel/Proofs/C02Roundtrip.lean, C16RText.lean):
+  `P.printProps rs`                the file `key=value⏎` per record (C02)
+  `P.SafeRec (key, value)`         non-empty key without `# ! = :` / white-space; value without backslash / newline that neither
+                                   starts nor ends in a blank (nor ends in CR) — the class of C02.roundtrip_properties_partial
+  `C16R.expectedRec old nd r`      for the reference record `r`: `(r.key, v)` if `new_data[r.key] = v`; nothing if it is `None`;
+                                   else the record of `old` with that key, if any
+  `C16R.expectedRecs ref old nd`   `ref.filterMap (expectedRec old nd)`: reference order
 -/
 import CLModel.Serialize.Serializer
 import CLModel.Proofs.C16Ser
 import CLModel.Proofs.C16Cor
 import CLModel.Proofs.C16Wrap
+import CLModel.Proofs.C16RText
+import CLModel.Proofs.C16RIni
 namespace C16
 open AR Ser C16L
 
@@ -100,6 +110,69 @@ by the end-to-end correspondence.  For `.inc` it is FALSE whenever the pruned li
 whitespace entry (finding C16-inc-leading-blank, F10): the example `leading_blank` below.
 -/
 
+/-- RE-PARSE, `.properties`, printed safe records.  Take ANY reference file and ANY old localization printed from safe
+    records (`key=value⏎` per record, distinct keys per file; the old file may have obsolete keys, lack reference keys and be
+    in any order) and ANY `new_data` dict whose values for reference keys are safe.  Then `serialize` — the model run end to
+    end: both texts parsed by `PropertiesParser.walk`, `serialize`, `serialize_legacy_resource` — returns a text `t` that
+    `PropertiesParser.walk` parses, WITHOUT JUNK, into exactly one entity per expected record, in reference order: the
+    reference keys having a new value or an old value not marked for removal; key = the reference key, raw value = value =
+    the new value if one was given, else the old one; no comment attached.
+    Proof route: C02 round trip (the walk of a printed file is known) → `wrap_spec` on these entries → `serialized_entities`
+    → every entry of the output that is not whitespace is directly followed by a white-space entry (`C16R.serializeEnts_alt`:
+    this shape survives the closed form of `AddRemove`, both `merge_two` reduces and `prune_placeholders`) → the text is a
+    sequence of printed records and newlines → `C04R.walk_toks`.
+    FULL statement (not proved): all six formats, comments, blank lines, junk and a missing final newline in the old file,
+    all legal layouts.  The class excludes the inputs of the known findings (see the witnesses below). -/
+theorem serialize_reparses_properties_partial (refRecs oldRecs : List P.PRec) (nd : NewData)
+    (href : ∀ r ∈ refRecs, P.SafeRec r) (hold : ∀ r ∈ oldRecs, P.SafeRec r)
+    (hrk : (refRecs.map (·.1)).Nodup) (hok : (oldRecs.map (·.1)).Nodup) (hnd : (nd.map (·.1)).Nodup)
+    (hv : ∀ r ∈ refRecs, ∀ v, (r.1, some v) ∈ nd → P.SafeRec (r.1, v)) :
+    ∃ t es, serializeText .properties (P.printProps refRecs).toArray (P.printProps oldRecs).toArray nd = some t ∧
+      P.walk .properties t.toArray = .done es ∧
+      P.entitiesOf .properties t.toArray es = (C16R.expectedRecs refRecs oldRecs nd).map P.expectedView ∧
+      P.junkOf t.toArray es = [] :=
+  C16R.serialize_reparses refRecs oldRecs nd href hold hrk hok hnd hv
+
+/-- RE-PARSE, `.ini`, printed safe records.  Reference `[sec]⏎` + `key=value⏎` per record and old localization of the same
+    form with the SAME section name (`C02X.printIni`; safe ini records: key non-empty, without `=` / newline, not starting
+    with `[ ; #` or white-space; value without newline — blanks at either end, backslashes, `#` are fine), distinct keys per
+    file, none equal to the section name; `new_data` a dict whose values for reference keys contain no newline.  Then the text
+    `serialize` returns is parsed by `IniParser.walk`, WITHOUT JUNK, into the section entry and exactly one entity per
+    expected record (`C16R.expectedRecs`, as for `.properties`), in reference order.
+    Additional step of the proof: the output starts with the section entry (`C16R.serializeEnts_head`: the key diff starts
+    with the first template key when the old dict starts with the same key) and contains no second one (dict keys are unique).
+    FULL statement (not proved): no section / several sections / another section name in the old file, comments, blank lines. -/
+theorem serialize_reparses_ini_partial (sec : List Nat) (refRecs oldRecs : List P.PRec) (nd : NewData)
+    (hsec : ∀ c ∈ sec, c ≠ 93 ∧ c ≠ 10)
+    (href : ∀ r ∈ refRecs, C02X.SafeIniRec r) (hold : ∀ r ∈ oldRecs, C02X.SafeIniRec r)
+    (hrk : (sec :: refRecs.map (·.1)).Nodup) (hok : (sec :: oldRecs.map (·.1)).Nodup) (hnd : (nd.map (·.1)).Nodup)
+    (hv : ∀ r ∈ refRecs, ∀ v, (r.1, some v) ∈ nd → ∀ c ∈ v, c ≠ 10) :
+    ∃ t es, serializeText .ini (C02X.printIni sec refRecs).toArray (C02X.printIni sec oldRecs).toArray nd = some t ∧
+      P.walk .ini t.toArray = .done es ∧
+      P.entitiesOf .ini t.toArray es = (C16R.expectedRecs refRecs oldRecs nd).map P.expectedView ∧
+      P.junkOf t.toArray es = [] :=
+  C16R.serialize_reparses_ini sec refRecs oldRecs nd hsec href hold hrk hok hnd hv
+
+/-- the same for a NEW localization: the old file is empty (no section header there); the expected records are the
+    reference keys that have a new value -/
+theorem serialize_reparses_ini_new_partial (sec : List Nat) (refRecs : List P.PRec) (nd : NewData)
+    (hsec : ∀ c ∈ sec, c ≠ 93 ∧ c ≠ 10) (href : ∀ r ∈ refRecs, C02X.SafeIniRec r)
+    (hrk : (sec :: refRecs.map (·.1)).Nodup) (hnd : (nd.map (·.1)).Nodup)
+    (hv : ∀ r ∈ refRecs, ∀ v, (r.1, some v) ∈ nd → ∀ c ∈ v, c ≠ 10) :
+    ∃ t es, serializeText .ini (C02X.printIni sec refRecs).toArray #[] nd = some t ∧
+      P.walk .ini t.toArray = .done es ∧
+      P.entitiesOf .ini t.toArray es = (C16R.expectedRecs refRecs [] nd).map P.expectedView ∧
+      P.junkOf t.toArray es = [] :=
+  C16R.serialize_reparses_ini_new sec refRecs nd hsec href hrk hnd hv
+
+/-- the shape behind it, for ALL entry lists: if in the template dict and in the dict of the sanitized old localization
+    every key that is not a Whitespace object is directly followed by one (every entry is followed by white space), the
+    same holds for the serialized entry list — no entity is glued to the entry before or after it. -/
+theorem serialized_shape (ref old : List Ent) (nd : NewData)
+    (h0 : C16R.Alt C16R.wsKey (dkeys (d0Of ref))) (h1 : C16R.Alt C16R.wsKey (dkeys (d1Of ref old nd))) :
+    C16R.Alt Ent.isWs (serializeEnts ref old nd) :=
+  C16R.serializeEnts_alt ref old nd h0 h1
+
 /-! ### non-vacuity and witnesses -/
 
 section Examples
@@ -151,6 +224,114 @@ example :
     let e : P.Entry := { kind := .entity, full := 0, s := 0, e := 9, ks := 8, ke := 9, vs := -1, ve := -1 }
     (wrap (ofEntry .inc s e) [118]).all
       = [35, 100, 101, 102, 105, 110, 101, 32, 107, 10, 35, 100, 101, 102, 105, 110, 101, 32, 106, 32, 118] := by
+  decide
+
+/-! #### re-parse theorem: non-vacuity and negation witnesses -/
+
+/-- the hypotheses of `serialize_reparses_properties_partial` hold for: reference `a=E ⏎ b=F ⏎ c=G ⏎`, old file
+    `c=z ⏎ x=o ⏎ a=y ⏎` (reordered, obsolete key `x`, `b` missing), new data `{b: N w, c: None, u: U}` (value with an inner
+    blank, a removal, an unknown key); the expected records are `a=y`, `b=N w` -/
+example :
+    ∃ t es, serializeText .properties (P.printProps [([97], [69]), ([98], [70]), ([99], [71])]).toArray
+        (P.printProps [([99], [122]), ([120], [111]), ([97], [121])]).toArray
+        [([98], some [78, 32, 119]), ([99], none), ([117], some [85])] = some t ∧
+      P.walk .properties t.toArray = .done es ∧
+      P.entitiesOf .properties t.toArray es = [P.expectedView ([97], [121]), P.expectedView ([98], [78, 32, 119])] ∧
+      P.junkOf t.toArray es = [] := by
+  have h := serialize_reparses_properties_partial [([97], [69]), ([98], [70]), ([99], [71])]
+    [([99], [122]), ([120], [111]), ([97], [121])] [([98], some [78, 32, 119]), ([99], none), ([117], some [85])]
+    (by intro r hr; simp at hr; rcases hr with rfl | rfl | rfl <;> constructor <;> simp [P.propsKeyChar])
+    (by intro r hr; simp at hr; rcases hr with rfl | rfl | rfl <;> constructor <;> simp [P.propsKeyChar])
+    (by decide) (by decide) (by decide)
+    (by
+      intro r hr v hm
+      simp at hr hm
+      rcases hr with rfl | rfl | rfl <;> simp at hm
+      subst hm
+      constructor <;> simp [P.propsKeyChar])
+  have e : C16R.expectedRecs [([97], [69]), ([98], [70]), ([99], [71])] [([99], [122]), ([120], [111]), ([97], [121])]
+      [([98], some [78, 32, 119]), ([99], none), ([117], some [85])] = [([97], [121]), ([98], [78, 32, 119])] := by decide
+  rw [e] at h
+  exact h
+
+/-- NEGATION WITNESS for "the old file is printed from records" — known finding C16-old-eof-comment-glued: reference
+    `a=E ⏎`, old file `#!` (a comment, no final newline: `PropertiesParser.walk` yields the one Comment entry), new data
+    `{a: N}`.  The comment is not followed by white space (`serialized_shape` does not apply), the output text is
+    `#!a=N ⏎`, and re-parsing it gives ONE comment and no entity: the new translation is swallowed. -/
+example :
+    P.walk .properties #[35, 33] = .done [{ kind := .comment, full := 0, s := 0, e := 2 }] ∧
+    serializeLegacy (serializeEntsS [eK 97 69, wS 1] [cM 33] [([97], some [78])]) = [35, 33, 97, 61, 78, 10] ∧
+    ¬ C16R.Alt Ent.isWs (serializeEntsS [eK 97 69, wS 1] [cM 33] [([97], some [78])]) ∧
+    P.walk .properties #[35, 33, 97, 61, 78, 10] =
+      .done [{ kind := .comment, full := 0, s := 0, e := 5 },
+             { kind := .whitespace, full := 5, s := 5, e := 6, ks := 5, ke := 6, vs := 5, ve := 6 }] := by
+  refine ⟨by decide, by decide, ?_, by decide⟩
+  have e : serializeEntsS [eK 97 69, wS 1] [cM 33] [([97], some [78])]
+      = [cM 33, { kind := .entity, key := [97], val := [78], all := [97, 61, 78] }, wS 1] := by decide
+  rw [e]
+  simp [C16R.Alt, C16R.hw, cM, wS, Ent.isWs]
+
+/-- NEGATION WITNESS for "distinct keys in the old file" (`hok`): with `a=y ⏎ a=z ⏎` the dict of the old file keeps the
+    LAST value (`a=z`, at the first position) while `expectedRec` looks the key up from the front -/
+example :
+    (serializeEntsS [eK 97 69, wS 1] [eK 97 121, wS 1, eK 97 122, wS 1] []).filter Ent.isReal = [eK 97 122] ∧
+    C16R.expectedRecs [([97], [69])] [([97], [121]), ([97], [122])] [] = [([97], [121])] := by
+  decide
+
+/-- NEGATION WITNESS for "distinct keys in the reference" (`hrk`): `a=E ⏎ a=F ⏎` has ONE template entry for `a`; the
+    output has one entity where `expectedRecs` lists one per reference record -/
+example :
+    (serializeEntsS [eK 97 69, wS 1, eK 97 70, wS 1] [] [([97], some [78])]).filter Ent.isReal
+      = [{ kind := .entity, key := [97], val := [78], all := [97, 61, 78] }] ∧
+    C16R.expectedRecs [([97], [69]), ([97], [70])] [] [([97], some [78])] = [([97], [78]), ([97], [78])] := by
+  decide
+
+/-- NEGATION WITNESSES for "new values are safe" (`hv`): `wrap` copies the raw value verbatim.  A value ending in a blank
+    (`N␣`): the text `a=N␣⏎` re-parses with the value span 2..3, the blank is lost.  A value containing a newline
+    (`N⏎x`): the text `a=N⏎x⏎` re-parses into the entity `a=N` followed by junk. -/
+example : (wrap (eK 97 69) [78, 32]).all = [97, 61, 78, 32] ∧ (P.propsGetNext #[97, 61, 78, 32, 10] 0).ve = 3 := by decide
+example : (wrap (eK 97 69) [78, 10, 120]).all = [97, 61, 78, 10, 120] ∧
+    (P.propsGetNext #[97, 61, 78, 10, 120, 10] 0).e = 3 ∧ (P.propsGetNext #[97, 61, 78, 10, 120, 10] 4).kind = .junk := by decide
+
+/-- `serialize_reparses_ini_partial`, non-vacuity: `[S]⏎ a=E ⏎ b=F ⏎`, old `[S]⏎ b= z ⏎ x=o ⏎` (value with a leading
+    blank, obsolete key), new data `{a: N\ }` (trailing backslash and blank: fine in ini) -/
+example :
+    ∃ t es, serializeText .ini (C02X.printIni [83] [([97], [69]), ([98], [70])]).toArray
+        (C02X.printIni [83] [([98], [32, 122]), ([120], [111])]).toArray [([97], some [78, 92, 32])] = some t ∧
+      P.walk .ini t.toArray = .done es ∧
+      P.entitiesOf .ini t.toArray es = [P.expectedView ([97], [78, 92, 32]), P.expectedView ([98], [32, 122])] ∧
+      P.junkOf t.toArray es = [] := by
+  have h := serialize_reparses_ini_partial [83] [([97], [69]), ([98], [70])] [([98], [32, 122]), ([120], [111])]
+    [([97], some [78, 92, 32])] (by decide)
+    (by intro r hr; simp at hr; rcases hr with rfl | rfl <;> constructor <;> simp)
+    (by intro r hr; simp at hr; rcases hr with rfl | rfl <;> constructor <;> simp)
+    (by decide) (by decide) (by decide)
+    (by
+      intro r hr v hm
+      simp at hr hm
+      rcases hr with rfl | rfl <;> simp at hm
+      subst hm
+      decide)
+  have e : C16R.expectedRecs [([97], [69]), ([98], [70])] [([98], [32, 122]), ([120], [111])] [([97], some [78, 92, 32])]
+      = [([97], [78, 92, 32]), ([98], [32, 122])] := by decide
+  rw [e] at h
+  exact h
+
+/-- NEGATION WITNESS for "no key equals the section name" (`hrk`): `IniSection.key` is the section name and shares the dict
+    of `parse_resource` with the entity keys.  Reference `[a]⏎ a=E ⏎`, new data `{a: N}`: the template has ONE entry for `a`
+    (the entity's placeholder, at the position of the section), the output is `a=N ⏎` — the section header is LOST.
+    The real code does the same (`serialize("x.ini", "[a]\na=E\n", …, {"a": "N"}) == b"a=N\n"`), see NOTES-C16. -/
+example :
+    serializeLegacy (serializeEntsS [{ kind := .other, key := [97], val := [97], all := [91, 97, 93] }, wS 1, eK 97 69, wS 1] []
+      [([97], some [78])]) = [97, 61, 78, 10] := by
+  decide
+
+/-- NEGATION WITNESS for "same section name in the old file": the old file's section is an older-only key that follows no
+    shared key, so it goes first; the output `[O]⏎[S]⏎a=y⏎` has two headers and the entities sit under the reference's one -/
+example :
+    serializeLegacy (serializeEntsS [{ kind := .other, key := [83], val := [83], all := [91, 83, 93] }, wS 1, eK 97 69, wS 1]
+      [{ kind := .other, key := [79], val := [79], all := [91, 79, 93] }, wS 1, eK 97 121, wS 1] [])
+      = [91, 79, 93, 10, 91, 83, 93, 10, 97, 61, 121, 10] := by
   decide
 
 end Examples
